@@ -61,6 +61,8 @@ func (j *jsonCodec) HandleRead(ctx netty.InboundContext, message netty.Message) 
 	// decode to map
 	var object = make(map[string]interface{})
 	utils.Assert(jsonDecoder.Decode(&object))
+	// the literal null decodes without an error and leaves a nil map: it is not an object
+	utils.AssertIf(nil == object, "json: top-level value is null, not an object")
 
 	// post object
 	ctx.HandleRead(object)
